@@ -17,26 +17,108 @@ Proof. rewrite !mk_ctx_default. reflexivity. Qed.
 Lemma default_hermetic : hermetic default_ctx.
 Proof. unfold hermetic, default_ctx; cbn. splits; eauto. Qed.
 
+(* ---- small facts about the descriptor table ---- *)
+Definition stdio_fd (fd : Z) : bool := (0 <=? fd) && (fd <? 3).
+
+Lemma forallb_filter {A} (P Q : A -> bool) l : forallb P l = true -> forallb P (filter Q l) = true.
+Proof.
+  induction l as [|x r IH]; cbn; [auto|]. intros H. apply andb_prop in H. destruct H as (H1 & H2).
+  destruct (Q x); cbn; [rewrite H1|]; auto.
+Qed.
+
+Lemma fd_in_forallb P fds fd : forallb P fds = true -> fd_in fds fd = true -> P fd = true.
+Proof.
+  unfold fd_in. induction fds as [|x r IH]; cbn; [discriminate|]. intros H1 H2.
+  apply andb_prop in H1. destruct H1 as (Hx & Hr). apply orb_prop in H2. destruct H2 as [E|E].
+  - apply Z.eqb_eq in E. subst. exact Hx.
+  - auto.
+Qed.
+
+Lemma fd_remove_absent fds fd : fd_in fds fd = false -> fd_remove fds fd = fds.
+Proof.
+  unfold fd_in, fd_remove. induction fds as [|x r IH]; cbn; [auto|]. intros H.
+  apply orb_false_elim in H. destruct H as (H1 & H2). rewrite Z.eqb_sym in H1. rewrite H1. cbn. f_equal. auto.
+Qed.
+
+Lemma fd_remove_incl fds fd x : In x (fd_remove fds fd) -> In x fds.
+Proof. unfold fd_remove. intros H. apply filter_In in H. tauto. Qed.
+
+Lemma fd_in_remove fds fd x : fd_in (fd_remove fds fd) x = fd_in fds x && negb (x =? fd).
+Proof.
+  unfold fd_in, fd_remove. induction fds as [|y r IH]; cbn; [reflexivity|].
+  destruct (y =? fd) eqn:E; cbn.
+  - rewrite IH. apply Z.eqb_eq in E. subst y. destruct (x =? fd); cbn; [rewrite andb_false_r; reflexivity|reflexivity].
+  - rewrite IH. destruct (x =? y) eqn:E2; cbn; [|reflexivity]. apply Z.eqb_eq in E2. subst y. rewrite E. reflexivity.
+Qed.
+
 Section WithStream.
 Variable R : nat -> Z.
+
+Lemma on_fd_fst c fd a b : fst (on_fd c fd a b) = c.
+Proof. unfold on_fd. destruct (fd_kind c (swrap 32 fd)); reflexivity. Qed.
+
+Lemma at_path_fst c fd p : fst (at_path c fd p) = c.
+Proof. unfold at_path. destruct (negb (ascii p)); [reflexivity|]. destruct (negb (path_ok p)); [reflexivity|]. apply on_fd_fst. Qed.
+
+(* toTimes over a fake clock leaves a fake clock *)
+Lemma to_times_fake t fl : exists t' e, to_times (FakeClock t) fl = (FakeClock t', e).
+Proof.
+  unfold to_times. cbv zeta.
+  destruct (has (wrap 16 fl) FstflagsAtim && has (wrap 16 fl) FstflagsAtimNow); [eauto|].
+  destruct (has (wrap 16 fl) FstflagsAtimNow); cbn [read_clock];
+    destruct (has (wrap 16 fl) FstflagsMtim && has (wrap 16 fl) FstflagsMtimNow); eauto;
+    match goal with |- context [if ?b then _ else _] => destruct b end; cbn [read_clock snd]; eauto.
+Qed.
+
+(* a context that differs from a hermetic one only in the value of a fake clock / the position in the fixed stream /
+   a smaller descriptor table is hermetic and has had the same effects on the host *)
+Definition same_effects (c c' : ctx) : Prop := c_emitted c' = c_emitted c /\ c_slept c' = c_slept c.
+
+Lemma hermetic_frame c c' :
+  hermetic c ->
+  c_args c' = c_args c -> c_environ c' = c_environ c -> c_stdin c' = c_stdin c -> c_stdout_host c' = c_stdout_host c ->
+  c_stderr_host c' = c_stderr_host c ->
+  (c_rand c' = c_rand c \/ exists p, c_rand c' = FakeRand p) ->
+  (c_wall c' = c_wall c \/ exists t, c_wall c' = FakeClock t) ->
+  (c_mono c' = c_mono c \/ exists t, c_mono c' = FakeClock t) ->
+  c_sleep_real c' = c_sleep_real c -> c_yield_real c' = c_yield_real c -> c_preopens c' = c_preopens c ->
+  c_listeners c' = c_listeners c ->
+  (forall x, In x (c_fds c') -> In x (c_fds c)) ->
+  hermetic c'.
+Proof.
+  intros (Ha & He & Hi & Ho & Hr & Hp & Hw & Hm & Hs & Hy & Hpre & Hl & Hf) E1 E2 E3 E4 E5 E6 E7 E8 E9 E10 E11 E12 E13.
+  unfold hermetic. rewrite E1, E2, E3, E4, E5, E9, E10, E11, E12. splits; auto.
+  - destruct E6 as [E|E]; [rewrite E|]; auto.
+  - destruct E7 as [E|E]; [rewrite E|]; auto.
+  - destruct E8 as [E|E]; [rewrite E|]; auto.
+  - apply forallb_forall. intros x Hx. rewrite forallb_forall in Hf. auto.
+Qed.
+
+Ltac frame_tac H :=
+  split; [apply (hermetic_frame _ _ H); cbn; eauto; try tauto; try apply fd_remove_incl|split; reflexivity].
+
+Ltac crunch :=
+  repeat (cbn [fst read_clock read_rand andb];
+          first
+            [ progress rewrite ?on_fd_fst, ?at_path_fst
+            | match goal with
+              | |- context [to_times (FakeClock ?t) ?fl] => destruct (to_times_fake t fl) as (? & ? & ->)
+              | |- context [match fd_kind ?c ?f with _ => _ end] => destruct (fd_kind c f)
+              | |- context [let '(_, _) := at_path ?c ?f ?p in _] => destruct (at_path c f p)
+              | |- context [poll_result ?a ?b] => destruct (poll_result a b) as [[? ?] ?]
+              | |- context [if ?b then _ else _] =>
+                  lazymatch b with context [if _ then _ else _] => fail | _ => destruct b eqn:? end
+              end ]).
 
 (* every call keeps a hermetic context hermetic and has no effect on the host *)
 Lemma step_hermetic c k : hermetic c ->
   hermetic (fst (wasi_step R c k)) /\
   c_emitted (fst (wasi_step R c k)) = c_emitted c /\ c_slept (fst (wasi_step R c k)) = c_slept c.
 Proof.
-  intros (Ha & He & Hi & Ho & Hr & (p & Hp) & (tw & Hw) & (tm & Hm) & Hs & Hy & Hpre & Hl).
-  unfold hermetic.
-  destruct k; cbn [wasi_step];
-    cbv zeta; rewrite ?Hw, ?Hm, ?Hp, ?Hi, ?Ho, ?Hr, ?Hs; cbn [andb];
-    repeat match goal with
-           | |- context [if ?b then _ else _] =>
-               lazymatch b with context [if _ then _ else _] => fail | _ => destruct b eqn:? end
-           end;
-    cbn;
-    rewrite ?Ha, ?He, ?Hi, ?Ho, ?Hr, ?Hp, ?Hw, ?Hm, ?Hs, ?Hy, ?Hpre, ?Hl; splits; eauto; try congruence.
-  all: destruct (poll_result _ _) as [[e out] sl]; cbn; rewrite ?Hs; cbn;
-    rewrite ?Ha, ?He, ?Hi, ?Ho, ?Hr, ?Hp, ?Hw, ?Hm, ?Hs, ?Hy, ?Hpre, ?Hl; splits; eauto; try congruence.
+  intros H. unfold wasi_step. destruct (c_exited c) eqn:Ex; [cbn; auto|].
+  pose proof H as (Ha & He & Hi & Ho & Hr & (p & Hp) & (tw & Hw) & (tm & Hm) & Hs & Hy & Hpre & Hl & Hf).
+  destruct k; cbn [wasi_live]; cbv zeta; rewrite ?Hw, ?Hm, ?Hp, ?Hi, ?Ho, ?Hr, ?Hs; crunch;
+    first [solve [splits; auto] | solve [frame_tac H]].
 Qed.
 
 Lemma final_hermetic ks : forall c, hermetic c ->
@@ -107,80 +189,255 @@ Proof.
 Qed.
 
 (* ------------------------------------------------------------------------------------------ *)
-(* the k-th reading of each clock                                                               *)
+(* the descriptor table evolves as a function of the calls alone                                 *)
 
-Lemma step_wall c k : c_wall (fst (wasi_step R c k)) =
-  if reads_wall k then snd (read_clock (c_wall c)) else c_wall c.
+Lemma fd_kind_open c fd : is_open c fd = match fd_kind c fd with KClosed => false | _ => true end.
 Proof.
-  destruct k; cbn [wasi_step reads_wall];
-    repeat match goal with |- context [if ?b then _ else _] => destruct b eqn:? end;
-    try reflexivity; try (destruct (read_clock _); reflexivity); try (destruct (read_rand _ _ _); reflexivity);
-    try (destruct (c_stdin c); reflexivity); try lia.
-  all: try (destruct (read_clock (c_wall c)); reflexivity).
-  all: destruct (poll_result _ _) as [[e out] sl]; reflexivity.
+  unfold fd_kind. destruct (is_open c fd); cbn [negb]; [|reflexivity].
+  repeat match goal with
+         | |- context [if ?b then _ else _] => destruct b
+         | |- context [match c_stdin c with _ => _ end] => destruct (c_stdin c)
+         end; reflexivity.
 Qed.
 
-Lemma step_mono c k : c_mono (fst (wasi_step R c k)) =
-  if reads_mono k then snd (read_clock (c_mono c)) else c_mono c.
+(* in a hermetic context every descriptor is closed or one of the no-op stdio files *)
+Lemma hermetic_kind c fd : hermetic c -> fd_kind c fd <> KOther.
 Proof.
-  destruct k; cbn [wasi_step reads_mono];
-    repeat match goal with |- context [if ?b then _ else _] => destruct b eqn:? end;
-    try reflexivity; try (destruct (read_clock _); reflexivity); try (destruct (read_rand _ _ _); reflexivity);
-    try (destruct (c_stdin c); reflexivity); try lia.
-  all: try (destruct (read_clock (c_mono c)); reflexivity).
-  all: try (unfold ClockIDRealtime, ClockIDMonotonic in *; lia).
-  all: destruct (poll_result _ _) as [[e out] sl]; reflexivity.
+  intros (Ha & He & Hi & Ho & Hr & _ & _ & _ & _ & _ & _ & _ & Hf).
+  unfold fd_kind. destruct (is_open c fd) eqn:E; cbn [negb]; [|discriminate].
+  pose proof (fd_in_forallb _ _ _ Hf E) as Hs. cbv beta in Hs.
+  rewrite Hi, Ho, Hr. unfold FdStdin, FdStdout, FdStderr.
+  destruct (fd =? 0) eqn:E0; [discriminate|]. destruct (fd =? 1) eqn:E1; [discriminate|].
+  destruct (fd =? 2) eqn:E2; [discriminate|]. lia.
+Qed.
+
+Lemma step_tbl c k : hermetic c -> ctx_tbl (fst (wasi_step R c k)) = tbl_step (ctx_tbl c) k.
+Proof.
+  intros H. unfold wasi_step, ctx_tbl at 2. destruct (c_exited c) eqn:Ex; [unfold ctx_tbl; cbn; rewrite Ex; reflexivity|].
+  pose proof H as (Ha & He & Hi & Ho & Hr & (p & Hp) & (tw & Hw) & (tm & Hm) & Hs & Hy & Hpre & Hl & Hf).
+  destruct k; cbn [wasi_live tbl_step]; cbv zeta; rewrite ?Hw, ?Hm, ?Hp, ?Hi, ?Ho, ?Hr, ?Hs;
+    try solve [crunch; unfold ctx_tbl; cbn; rewrite ?Ex; reflexivity].
+  (* fd_close *)
+  pose proof (fd_kind_open c (swrap 32 fd)) as Ho'. pose proof (hermetic_kind c (swrap 32 fd) H) as Hk.
+  destruct (fd_kind c (swrap 32 fd)); try congruence; unfold ctx_tbl; cbn; rewrite ?Ex; try reflexivity.
+  rewrite fd_remove_absent; [reflexivity|exact Ho'].
+Qed.
+
+Lemma final_tbl ks : forall c, hermetic c -> ctx_tbl (final R c ks) = fold_left tbl_step ks (ctx_tbl c).
+Proof.
+  induction ks as [|k r IH]; intros c Hc; [reflexivity|].
+  unfold final in *. cbn [fold_left]. destruct (step_hermetic c k Hc) as (H1 & _).
+  rewrite IH by exact H1. rewrite step_tbl by exact Hc. reflexivity.
+Qed.
+
+(* the table never gains a descriptor: a closed descriptor stays closed, nothing of the host is ever opened *)
+Lemma tbl_monotone ks : forall l fds, fold_left tbl_step ks (Some l) = Some fds -> forall x, In x fds -> In x l.
+Proof.
+  induction ks as [|k r IH]; intros l fds H x Hx; cbn [fold_left] in H; [injection H as <-; exact Hx|].
+  assert (Hn : forall r0, fold_left tbl_step r0 None = None) by (induction r0; cbn; auto).
+  destruct k; cbn [tbl_step] in H; try (eapply IH; eassumption).
+  - eapply fd_remove_incl. eapply IH; eassumption.
+  - rewrite Hn in H. discriminate.
+Qed.
+
+Lemma table_function_of_calls ks :
+  ctx_tbl (final R default_ctx ks) = tbl_after ks /\
+  (forall fds, tbl_after ks = Some fds -> forall x, In x fds -> x = 0 \/ x = 1 \/ x = 2) /\
+  (forall ks' fds fds', tbl_after ks = Some fds -> tbl_after (ks ++ ks') = Some fds' -> forall x, In x fds' -> In x fds).
+Proof.
+  splits.
+  - apply (final_tbl ks default_ctx default_hermetic).
+  - intros fds H x Hx. pose proof (tbl_monotone ks _ _ H x Hx) as Hi. cbn in Hi. intuition lia.
+  - intros ks' fds fds' H1 H2 x Hx. unfold tbl_after in *. rewrite fold_left_app, H1 in H2.
+    eapply tbl_monotone; eassumption.
+Qed.
+
+(* ------------------------------------------------------------------------------------------ *)
+(* no call of a hermetic context falls outside the model                                        *)
+
+Lemma to_times_errno w fl : snd (to_times w fl) = 0 \/ snd (to_times w fl) = ErrnoInval.
+Proof.
+  unfold to_times. cbv zeta.
+  destruct (has (wrap 16 fl) FstflagsAtim && has (wrap 16 fl) FstflagsAtimNow); [auto|].
+  destruct (if has (wrap 16 fl) FstflagsAtimNow then read_clock w else (0, w)) as [now w1].
+  destruct (has (wrap 16 fl) FstflagsMtim && has (wrap 16 fl) FstflagsMtimNow); [auto|].
+  destruct (has (wrap 16 fl) FstflagsMtimNow && (now =? 0)); auto.
+Qed.
+
+Lemma poll_scan_errno opn subs : forall now deferred tmo e, poll_scan opn subs now deferred tmo = inl e -> 0 < e.
+Proof.
+  induction subs as [|s r IH]; intros now deferred tmo e H; cbn [poll_scan] in H; [discriminate|].
+  destruct s as [t fl u|fd u|fd u|ty u]; cbv zeta in H;
+    repeat match type of H with context [if ?c then _ else _] => destruct c end;
+    try (eapply IH; eassumption); injection H as <-; reflexivity.
+Qed.
+
+Lemma poll_result_errno opn subs : 0 <= fst (fst (poll_result opn subs)).
+Proof.
+  unfold poll_result. destruct subs as [|s r]; [cbn; unfold ErrnoInval; lia|].
+  destruct (poll_scan opn (s :: r) [] [] (2 ^ 63 - 1)) as [e|[[now deferred] tmo]] eqn:E.
+  - apply poll_scan_errno in E. cbn. lia.
+  - destruct deferred; [cbn; lia|]. destruct (opn FdStdin); cbn; unfold ErrnoBadf; lia.
+Qed.
+
+Ltac errno_leaf :=
+  first [ solve [cbn [fst snd]; unfold bad, unmodelled, res_unmodelled, res_exit, res_closed, ErrnoBadf, ErrnoInval, ErrnoNotsup,
+                   ErrnoNotdir, ErrnoNosys, ErrnoNametoolong, ErrnoPerm; cbn [fst snd]; lia]
+        | solve [change (0 =? 0) with true; change (ErrnoInval =? 0) with false; cbv iota; cbn [fst snd];
+                 unfold res_unmodelled, ErrnoNosys, ErrnoInval; lia] ].
+
+Lemma on_fd_total c fd a b : hermetic c -> fst a <> res_unmodelled -> fst b <> res_unmodelled ->
+  fst (snd (on_fd c fd a b)) <> res_unmodelled.
+Proof.
+  intros H Ha Hb. unfold on_fd. pose proof (hermetic_kind c (swrap 32 fd) H).
+  destruct (fd_kind c (swrap 32 fd)); cbn [snd]; congruence.
+Qed.
+
+Lemma at_path_total c fd p : hermetic c -> ascii p = true -> fst (snd (at_path c fd p)) <> res_unmodelled.
+Proof.
+  intros H Hp. unfold at_path. rewrite Hp. cbn [negb]. destruct (negb (path_ok p)); [errno_leaf|].
+  apply on_fd_total; [exact H|errno_leaf|errno_leaf].
+Qed.
+
+Lemma hermetic_total c k : hermetic c -> ascii_call k = true -> fst (snd (wasi_step R c k)) <> res_unmodelled.
+Proof.
+  intros H Hk. unfold wasi_step. destruct (c_exited c) eqn:Ex; [errno_leaf|].
+  pose proof H as (Ha & He & Hi & Ho & Hr & (p & Hp) & (tw & Hw) & (tm & Hm) & Hs & Hy & Hpre & Hl & Hf).
+  assert (Hopen : forall fd, is_open c fd = true -> (fd =? 0) || ((fd =? 1) || (fd =? 2)) = true).
+  { intros fd E. pose proof (fd_in_forallb _ _ _ Hf E) as X. cbv beta in X. lia. }
+  destruct k; cbn [wasi_live ascii_call] in *; cbv zeta; rewrite ?Hw, ?Hm, ?Hp, ?Hi, ?Ho, ?Hr, ?Hs, ?Hpre;
+    cbn [read_clock read_rand];
+    try solve [ errno_leaf
+              | apply at_path_total; assumption
+              | apply on_fd_total; [exact H| |]; repeat match goal with |- context [if ?b then _ else _] => destruct b end; errno_leaf
+              | repeat match goal with |- context [if ?b then _ else _] => destruct b end;
+                first [errno_leaf | apply at_path_total; assumption | apply on_fd_total; [exact H|errno_leaf|errno_leaf]] ].
+  - (* fd_read *)
+    unfold FdStdin, FdStdout, FdStderr. destruct (is_open c (swrap 32 fd)) eqn:E; cbn [negb]; [|errno_leaf].
+    apply Hopen in E. destruct (swrap 32 fd =? 0); [errno_leaf|]. cbn [orb] in E. rewrite E.
+    destruct (all_zero lens); errno_leaf.
+  - (* fd_write *)
+    unfold FdStdin, FdStdout, FdStderr. destruct (is_open c (swrap 32 fd)) eqn:E; cbn [negb]; [|errno_leaf].
+    apply Hopen in E. destruct (swrap 32 fd =? 0); [destruct chunks; errno_leaf|]. cbn [orb] in E. rewrite E. errno_leaf.
+  - (* fd_filestat_set_times *)
+    pose proof (hermetic_kind c (swrap 32 fd) H). pose proof (to_times_errno (FakeClock tw) fstflags) as Ht.
+    destruct (fd_kind c (swrap 32 fd)); try congruence; try errno_leaf;
+      destruct (to_times (FakeClock tw) fstflags) as [w e]; cbn [snd] in Ht; destruct Ht as [->| ->]; errno_leaf.
+  - (* fd_close *)
+    pose proof (hermetic_kind c (swrap 32 fd) H). destruct (fd_kind c (swrap 32 fd)); try congruence; errno_leaf.
+  - (* poll_oneoff *)
+    pose proof (poll_result_errno (is_open c) subs) as Hp0. destruct (poll_result (is_open c) subs) as [[e out] sl].
+    cbn [fst snd] in *. unfold res_unmodelled. lia.
+  - (* path_filestat_set_times *)
+    pose proof (to_times_errno (FakeClock tw) fstflags) as Ht.
+    destruct (to_times (FakeClock tw) fstflags) as [w e]; cbn [snd] in Ht; destruct Ht as [->| ->].
+    + change (0 =? 0) with true. cbv iota. pose proof (at_path_total c fd path H Hk) as Ha'.
+      destruct (at_path c fd path) as [c' r]. exact Ha'.
+    + errno_leaf.
+Qed.
+
+(* whatever a default instance has done before, its next call is answered by the model proper *)
+Lemma default_total ks k : ascii_call k = true ->
+  fst (snd (wasi_step R (final R default_ctx ks) k)) <> res_unmodelled.
+Proof. intros Hk. apply hermetic_total; [|exact Hk]. apply (final_hermetic ks default_ctx default_hermetic). Qed.
+
+(* ------------------------------------------------------------------------------------------ *)
+(* the k-th reading of each clock                                                               *)
+
+Lemma to_times_reads t fl : t <> 0 ->
+  fst (to_times (FakeClock t) fl) = if times_reads fl then FakeClock (swrap 64 (t + ms)) else FakeClock t.
+Proof.
+  intros Hne. apply Z.eqb_neq in Hne. unfold to_times, times_reads. cbv zeta.
+  destruct (has (wrap 16 fl) FstflagsAtim), (has (wrap 16 fl) FstflagsAtimNow), (has (wrap 16 fl) FstflagsMtim),
+    (has (wrap 16 fl) FstflagsMtimNow); cbn [andb read_clock fst snd]; rewrite ?Hne; cbn [andb fst snd read_clock]; reflexivity.
+Qed.
+
+Lemma step_wall c k t : hermetic c -> c_wall c = FakeClock t -> t <> 0 ->
+  c_wall (fst (wasi_step R c k)) = if reads_wall (ctx_tbl c) k then FakeClock (swrap 64 (t + ms)) else FakeClock t.
+Proof.
+  intros H Hw Hne. unfold wasi_step, ctx_tbl. destruct (c_exited c) eqn:Ex; [cbn; exact Hw|].
+  pose proof H as (Ha & He & Hi & Ho & Hr & (p & Hp) & _ & (tm & Hm) & Hs & Hy & Hpre & Hl & Hf).
+  destruct k; cbn [wasi_live reads_wall]; cbv zeta; rewrite ?Hw, ?Hm, ?Hp, ?Hi, ?Ho, ?Hr, ?Hs;
+    try solve [crunch; cbn; rewrite ?Hw; reflexivity].
+  - (* fd_filestat_set_times *)
+    pose proof (fd_kind_open c (swrap 32 fd)) as Ho'. pose proof (hermetic_kind c (swrap 32 fd) H) as Hk.
+    pose proof (to_times_reads t fstflags Hne) as Ht. unfold is_open in Ho'.
+    destruct (fd_kind c (swrap 32 fd)); try congruence; rewrite Ho'; cbn [andb fst]; try exact Hw;
+      destruct (to_times (FakeClock t) fstflags) as [w e]; cbn [fst] in *; cbn; exact Ht.
+  - (* path_filestat_set_times *)
+    pose proof (to_times_reads t fstflags Hne) as Ht.
+    destruct (to_times (FakeClock t) fstflags) as [w e]; cbn [fst] in Ht.
+    destruct (e =? 0); [destruct (at_path c fd path)|]; cbn; exact Ht.
+Qed.
+
+Lemma step_mono c k t : hermetic c -> c_mono c = FakeClock t ->
+  c_mono (fst (wasi_step R c k)) = if reads_mono (ctx_tbl c) k then FakeClock (swrap 64 (t + ms)) else FakeClock t.
+Proof.
+  intros H Hm. unfold wasi_step, ctx_tbl. destruct (c_exited c) eqn:Ex; [cbn; exact Hm|].
+  pose proof H as (Ha & He & Hi & Ho & Hr & (p & Hp) & (tw & Hw) & _ & Hs & Hy & Hpre & Hl & Hf).
+  destruct k; cbn [wasi_live reads_mono]; cbv zeta; rewrite ?Hw, ?Hm, ?Hp, ?Hi, ?Ho, ?Hr, ?Hs;
+    try solve [crunch; cbn; rewrite ?Hm; first [reflexivity | unfold ClockIDRealtime, ClockIDMonotonic in *; lia]].
 Qed.
 
 Lemma ms_val : ms = 1000000. Proof. reflexivity. Qed.
 
-Lemma count_cons f k r : count f (k :: r) = (if f k then 1 else 0) + count f r.
-Proof. unfold count. cbn [filter]. destruct (f k); cbn [length]; lia. Qed.
+Lemma count_nonneg f ks : forall t, 0 <= count f t ks.
+Proof. induction ks as [|k r IH]; intros t; cbn [count]; [lia|]. specialize (IH (tbl_step t k)). destruct (f t k); lia. Qed.
 
-Lemma count_nonneg f ks : 0 <= count f ks. Proof. unfold count. lia. Qed.
-
-Lemma wall_after ks : forall c t, c_wall c = FakeClock t -> 0 <= t -> t + count reads_wall ks * ms < 2 ^ 63 ->
-  c_wall (final R c ks) = FakeClock (t + count reads_wall ks * ms).
+Lemma wall_after ks : forall c t, hermetic c -> c_wall c = FakeClock t -> 0 < t ->
+  t + count reads_wall (ctx_tbl c) ks * ms < 2 ^ 63 ->
+  c_wall (final R c ks) = FakeClock (t + count reads_wall (ctx_tbl c) ks * ms).
 Proof.
-  induction ks as [|k r IH]; intros c t Hc Ht Hb.
-  - cbn. rewrite Hc. f_equal. unfold count. cbn. lia.
-  - unfold final in *. cbn [fold_left]. rewrite count_cons in *. pose proof (count_nonneg reads_wall r) as Hn. rewrite ms_val in *.
-    pose proof (step_wall c k) as Hs. rewrite Hc in Hs. cbn [read_clock snd] in Hs.
-    destruct (reads_wall k).
-    + rewrite (IH _ (t + 1000000)); [f_equal; lia| |lia|lia].
+  induction ks as [|k r IH]; intros c t H Hc Ht Hb.
+  - cbn. rewrite Hc. f_equal. lia.
+  - unfold final in *. cbn [fold_left]. cbn [count] in *.
+    pose proof (count_nonneg reads_wall r (tbl_step (ctx_tbl c) k)) as Hn. rewrite ms_val in *.
+    pose proof (step_wall c k t H Hc ltac:(lia)) as Hs. destruct (step_hermetic c k H) as (H' & _).
+    rewrite <- (step_tbl c k H) in *.
+    destruct (reads_wall (ctx_tbl c) k).
+    + rewrite (IH _ (t + 1000000)); [f_equal; lia|exact H'| |lia|lia].
       rewrite Hs. f_equal. rewrite ms_val. apply swrap_small; [lia|]. unfold in_s. change (2 ^ (64 - 1)) with (2 ^ 63). lia.
-    + rewrite (IH _ t); [f_equal; lia|exact Hs|lia|lia].
+    + rewrite (IH _ t); [f_equal; lia|exact H'|exact Hs|lia|lia].
 Qed.
 
-Lemma mono_after ks : forall c t, c_mono c = FakeClock t -> 0 <= t -> t + count reads_mono ks * ms < 2 ^ 63 ->
-  c_mono (final R c ks) = FakeClock (t + count reads_mono ks * ms).
+Lemma mono_after ks : forall c t, hermetic c -> c_mono c = FakeClock t -> 0 <= t ->
+  t + count reads_mono (ctx_tbl c) ks * ms < 2 ^ 63 ->
+  c_mono (final R c ks) = FakeClock (t + count reads_mono (ctx_tbl c) ks * ms).
 Proof.
-  induction ks as [|k r IH]; intros c t Hc Ht Hb.
-  - cbn. rewrite Hc. f_equal. unfold count. cbn. lia.
-  - unfold final in *. cbn [fold_left]. rewrite count_cons in *. pose proof (count_nonneg reads_mono r) as Hn. rewrite ms_val in *.
-    pose proof (step_mono c k) as Hs. rewrite Hc in Hs. cbn [read_clock snd] in Hs.
-    destruct (reads_mono k).
-    + rewrite (IH _ (t + 1000000)); [f_equal; lia| |lia|lia].
+  induction ks as [|k r IH]; intros c t H Hc Ht Hb.
+  - cbn. rewrite Hc. f_equal. lia.
+  - unfold final in *. cbn [fold_left]. cbn [count] in *.
+    pose proof (count_nonneg reads_mono r (tbl_step (ctx_tbl c) k)) as Hn. rewrite ms_val in *.
+    pose proof (step_mono c k t H Hc) as Hs. destruct (step_hermetic c k H) as (H' & _).
+    rewrite <- (step_tbl c k H) in *.
+    destruct (reads_mono (ctx_tbl c) k).
+    + rewrite (IH _ (t + 1000000)); [f_equal; lia|exact H'| |lia|lia].
       rewrite Hs. f_equal. rewrite ms_val. apply swrap_small; [lia|]. unfold in_s. change (2 ^ (64 - 1)) with (2 ^ 63). lia.
-    + rewrite (IH _ t); [f_equal; lia|exact Hs|lia|lia].
+    + rewrite (IH _ t); [f_equal; lia|exact H'|exact Hs|lia|lia].
 Qed.
 
-(* after any calls of which kw read the wall clock and km the monotonic clock, the next readings are
-   epoch + kw ms and km ms (2022-01-01T00:00:00Z = 1640995200 s) *)
+(* after any calls (the instance not having exited) of which kw read the wall clock and km the monotonic clock, the
+   next readings are epoch + kw ms and km ms (2022-01-01T00:00:00Z = 1640995200 s).  Readings are made by
+   clock_time_get and by fd/path_filestat_set_times with a "now" flag; whether the latter reads depends on the
+   descriptor being open, i.e. on the earlier fd_close calls: [count] threads the table through the calls. *)
 Lemma clock_values ks p :
   let c := final R default_ctx ks in
-  let kw := count reads_wall ks in let km := count reads_mono ks in
+  let kw := count reads_wall (Some [0; 1; 2]) ks in let km := count reads_mono (Some [0; 1; 2]) ks in
+  tbl_after ks <> None ->
   fake_epoch + kw * ms < 2 ^ 63 -> km * ms < 2 ^ 63 ->
   snd (wasi_step R c (ClockTimeGet ClockIDRealtime p)) = (0, le_bytes 8 (1640995200 * 10 ^ 9 + kw * 10 ^ 6)) /\
   snd (wasi_step R c (ClockTimeGet ClockIDMonotonic p)) = (0, le_bytes 8 (km * 10 ^ 6)).
 Proof.
-  cbv zeta. intros Hw Hm.
-  pose proof (wall_after ks default_ctx fake_epoch eq_refl ltac:(unfold fake_epoch, FakeEpochNanos; lia) Hw) as H1.
-  pose proof (mono_after ks default_ctx 0 eq_refl ltac:(lia) ltac:(lia)) as H2.
-  pose proof (count_nonneg reads_wall ks). pose proof (count_nonneg reads_mono ks).
-  cbn [wasi_step]. change (wrap 32 ClockIDRealtime =? ClockIDRealtime) with true.
+  cbv zeta. intros Hx Hw Hm.
+  pose proof (wall_after ks default_ctx fake_epoch default_hermetic eq_refl ltac:(unfold fake_epoch, FakeEpochNanos; lia) Hw) as H1.
+  pose proof (mono_after ks default_ctx 0 default_hermetic eq_refl ltac:(lia) ltac:(change (ctx_tbl default_ctx) with (Some [0; 1; 2]); lia)) as H2.
+  change (ctx_tbl default_ctx) with (Some [0; 1; 2]) in *.
+  pose proof (count_nonneg reads_wall ks (Some [0; 1; 2])). pose proof (count_nonneg reads_mono ks (Some [0; 1; 2])).
+  destruct (table_function_of_calls ks) as (Ht & _). rewrite <- Ht in Hx. unfold ctx_tbl in Hx.
+  unfold wasi_step. destruct (c_exited (final R default_ctx ks)); [congruence|].
+  cbn [wasi_live]. change (wrap 32 ClockIDRealtime =? ClockIDRealtime) with true.
   change (wrap 32 ClockIDMonotonic =? ClockIDRealtime) with false. change (wrap 32 ClockIDMonotonic =? ClockIDMonotonic) with true.
-  cbv beta iota. rewrite H1, H2. cbn [read_clock snd fst].
+  cbv beta iota zeta. rewrite H1, H2. cbn [read_clock snd fst].
   rewrite ms_val in *. unfold fake_epoch, FakeEpochNanos in *. change (10 ^ 9) with 1000000000. change (10 ^ 6) with 1000000.
   split; f_equal; f_equal; unfold wrap; rewrite Z.mod_small; lia.
 Qed.
@@ -191,22 +448,22 @@ End WithStream.
 (* poll_oneoff: the order of the events is fixed by the order of the subscriptions               *)
 
 (* a subscription that is answered after the immediate ones: fd_read on an open descriptor *)
-Definition sub_deferred (nf : Z) (s : sub) : bool :=
-  match s with SFdRead fd _ => (0 <=? swrap 32 fd) && (swrap 32 fd <? nf) | _ => false end.
+Definition sub_deferred (opn : Z -> bool) (s : sub) : bool :=
+  match s with SFdRead fd _ => (0 <=? swrap 32 fd) && opn (swrap 32 fd) | _ => false end.
 
 (* the event written for a subscription (when the scan meets no error) *)
-Definition sub_event (nf : Z) (s : sub) : bytes :=
+Definition sub_event (opn : Z -> bool) (s : sub) : bytes :=
   match s with
   | SClock _ _ u => poll_event u 0 EventTypeClock
-  | SFdRead fd u => poll_event u (if swrap 32 fd <? nf then 0 else ErrnoBadf) EventTypeFdRead
-  | SFdWrite fd u => poll_event u (if swrap 32 fd <? nf then ErrnoNotsup else ErrnoBadf) EventTypeFdWrite
+  | SFdRead fd u => poll_event u (if opn (swrap 32 fd) then 0 else ErrnoBadf) EventTypeFdRead
+  | SFdWrite fd u => poll_event u (if opn (swrap 32 fd) then ErrnoNotsup else ErrnoBadf) EventTypeFdWrite
   | SOther ty u => poll_event u 0 ty
   end.
 
-Lemma poll_scan_order nf subs : forall now deferred tmo now' deferred' tmo',
-  poll_scan nf subs now deferred tmo = inr (now', deferred', tmo') ->
-  now' = now ++ map (sub_event nf) (filter (fun s => negb (sub_deferred nf s)) subs) /\
-  deferred' = deferred ++ map (sub_event nf) (filter (sub_deferred nf) subs).
+Lemma poll_scan_order opn subs : forall now deferred tmo now' deferred' tmo',
+  poll_scan opn subs now deferred tmo = inr (now', deferred', tmo') ->
+  now' = now ++ map (sub_event opn) (filter (fun s => negb (sub_deferred opn s)) subs) /\
+  deferred' = deferred ++ map (sub_event opn) (filter (sub_deferred opn) subs).
 Proof.
   induction subs as [|s r IH]; intros now deferred tmo now' deferred' tmo' H; cbn [poll_scan] in H.
   - inversion H; subst. cbn. rewrite !app_nil_r. auto.
@@ -215,7 +472,7 @@ Proof.
       apply IH in H. destruct H as (H1 & H2). rewrite H1, H2, <- app_assoc. auto.
     + destruct (swrap 32 fd <? 0) eqn:E0; [discriminate|].
       replace (0 <=? swrap 32 fd) with true by lia. cbn [andb].
-      destruct (swrap 32 fd <? nf) eqn:E1; cbn [negb map]; apply IH in H; destruct H as (H1 & H2);
+      destruct (opn (swrap 32 fd)) eqn:E1; cbn [negb map]; apply IH in H; destruct H as (H1 & H2);
         rewrite H1, H2, <- ?app_assoc; cbn [sub_event]; rewrite ?E1; auto.
     + destruct (swrap 32 fd <? 0) eqn:E0; [discriminate|].
       apply IH in H. destruct H as (H1 & H2). rewrite H1, H2, <- app_assoc. auto.
@@ -224,36 +481,57 @@ Qed.
 
 (* the answer of a successful poll_oneoff: the number of events, then the events of the immediately answered
    subscriptions in subscription order, then those of the deferred ones in subscription order, then zeroes *)
-Lemma poll_events_in_subscription_order nf subs out sl :
-  poll_result nf subs = (0, out, sl) -> subs <> [] ->
-  let evs := map (sub_event nf) (filter (fun s => negb (sub_deferred nf s)) subs) ++
-             map (sub_event nf) (filter (sub_deferred nf) subs) in
+Lemma poll_events_in_subscription_order opn subs out sl :
+  poll_result opn subs = (0, out, sl) -> subs <> [] ->
+  let evs := map (sub_event opn) (filter (fun s => negb (sub_deferred opn s)) subs) ++
+             map (sub_event opn) (filter (sub_deferred opn) subs) in
   length evs = length subs /\
   out = le_bytes 4 (Z.of_nat (length subs)) ++ concat evs ++ repeat 0 (32 * length subs - length (concat evs))%nat.
 Proof.
   intros H Hne. cbv zeta. unfold poll_result in H.
-  assert (H' : match poll_scan nf subs [] [] (2 ^ 63 - 1) with
+  assert (H' : match poll_scan opn subs [] [] (2 ^ 63 - 1) with
                | inl e => (e, [], 0)
                | inr (now, deferred, tmo) =>
-                   (0, le_bytes 4 (Z.of_nat (length (now ++ deferred))) ++ concat (now ++ deferred) ++
-                       repeat 0 (32 * length subs - length (concat (now ++ deferred)))%nat,
-                    match deferred with [] => (if 0 <? tmo then tmo else 0) | _ => 0 end)
+                   match deferred with
+                   | [] => (0, le_bytes 4 (Z.of_nat (length (now ++ deferred))) ++ concat (now ++ deferred) ++
+                               repeat 0 (32 * length subs - length (concat (now ++ deferred)))%nat,
+                            if existsb is_clock_sub subs && (0 <? tmo) then tmo else 0)
+                   | _ => if opn FdStdin
+                          then (0, le_bytes 4 (Z.of_nat (length (now ++ deferred))) ++ concat (now ++ deferred) ++
+                                   repeat 0 (32 * length subs - length (concat (now ++ deferred)))%nat, 0)
+                          else (ErrnoBadf, [], 0)
+                   end
                end = (0, out, sl)) by (destruct subs; [congruence|exact H]).
   clear H. rename H' into H.
-  destruct (poll_scan nf subs [] [] (2 ^ 63 - 1)) as [e|[[now deferred] tmo]] eqn:E.
-  - injection H as He _ _. (* an error errno is never 0 here *)
-    exfalso. clear Hne. subst e. revert E. generalize (2 ^ 63 - 1) as t. generalize (@nil bytes) at 1 as a. generalize (@nil bytes) as b.
-    induction subs as [|s r IH]; intros b a t E; cbn [poll_scan] in E; [discriminate|].
-    destruct s as [t1 fl u|fd u|fd u|ty u]; cbv zeta in E;
-      repeat match type of E with context [if ?c then _ else _] => destruct c end;
-      try (apply IH in E; exact E); inversion E.
-  - apply poll_scan_order in E. destruct E as (E1 & E2). cbn [app] in E1, E2. subst now deferred.
-    injection H as Hout _. subst out.
-    assert (Hlen : length (map (sub_event nf) (filter (fun s => negb (sub_deferred nf s)) subs) ++
-                           map (sub_event nf) (filter (sub_deferred nf) subs)) = length subs).
+  destruct (poll_scan opn subs [] [] (2 ^ 63 - 1)) as [e|[[now deferred] tmo]] eqn:E.
+  - apply poll_scan_errno in E. injection H as He _ _. lia.
+  - apply poll_scan_order in E. destruct E as (E1 & E2). cbn [app] in E1, E2.
+    assert (Hout : out = le_bytes 4 (Z.of_nat (length (now ++ deferred))) ++ concat (now ++ deferred) ++
+                         repeat 0 (32 * length subs - length (concat (now ++ deferred)))%nat).
+    { destruct deferred; [injection H as <- _; reflexivity|].
+      destruct (opn FdStdin); [injection H as <- _; reflexivity|]. injection H as He _ _. unfold ErrnoBadf in He. lia. }
+    clear H. subst now deferred out.
+    assert (Hlen : length (map (sub_event opn) (filter (fun s => negb (sub_deferred opn s)) subs) ++
+                           map (sub_event opn) (filter (sub_deferred opn) subs)) = length subs).
     { rewrite app_length, !map_length. clear. induction subs as [|s r IH]; [reflexivity|].
-      cbn [filter]. destruct (sub_deferred nf s); cbn [negb length]; lia. }
+      cbn [filter]. destruct (sub_deferred opn s); cbn [negb length]; lia. }
     split; [exact Hlen|]. rewrite Hlen. reflexivity.
+Qed.
+
+(* when a read subscription on an open descriptor must wait for stdin and stdin itself has been closed, the whole
+   call fails: the events are a function of the subscriptions and the descriptor table alone *)
+Lemma poll_stdin_closed opn subs :
+  opn FdStdin = false -> existsb (sub_deferred opn) subs = true ->
+  fst (fst (poll_result opn subs)) <> 0.
+Proof.
+  intros Hc Hd. unfold poll_result. destruct subs as [|s0 r0]; [discriminate|]. set (subs := s0 :: r0) in *.
+  destruct (poll_scan opn subs [] [] (2 ^ 63 - 1)) as [e|[[now deferred] tmo]] eqn:E.
+  - apply poll_scan_errno in E. cbn. lia.
+  - apply poll_scan_order in E. destruct E as (_ & E2). cbn [app] in E2.
+    destruct deferred as [|d dr].
+    + exfalso. clear - E2 Hd. induction subs as [|s r IH]; [discriminate|].
+      cbn [filter existsb] in *. destruct (sub_deferred opn s); [discriminate|]. auto.
+    + rewrite Hc. cbn. unfold ErrnoBadf. lia.
 Qed.
 
 (* ------------------------------------------------------------------------------------------ *)
@@ -273,8 +551,8 @@ Definition host_config : module_config :=
      m_nanosleep := true; m_osyield := true; m_mounts := FromHost; m_listeners := true |}.
 
 Definition ex_calls : list call :=
-  [ClockTimeGet 0 0; ClockTimeGet 1 0; ClockTimeGet 0 0; RandomGet 3; ArgsSizesGet; EnvironSizesGet; FdRead 0 2; FdWrite 1 [65];
-   PollClock 0 5000 0 7; FdPrestatGet 3; ClockTimeGet 0 0; ClockTimeGet 1 0; SchedYield; PathOpen 3; FdFdstatGet 4].
+  [ClockTimeGet 0 0; ClockTimeGet 1 0; ClockTimeGet 0 0; RandomGet 3; ArgsSizesGet; EnvironSizesGet; FdRead 0 [2%nat]; FdWrite 1 [[65]];
+   PollClock 0 5000 0 7; FdPrestatGet 3; ClockTimeGet 0 0; ClockTimeGet 1 0; SchedYield; PathOpen 3 [120]; FdFdstatGet 4].
 
 Definition ex_stream : nat -> Z := fun k => (Z.of_nat k * 37 + 5) mod 256.
 
@@ -314,3 +592,26 @@ Example poll_three_stdio :
   snd (wasi_step ex_stream default_ctx (Poll [SFdRead 2 12; SClock 5 0 10; SFdRead 0 11; SFdWrite 7 13; SFdRead 1 14])) =
   (0, le_bytes 4 5 ++ poll_event 10 0 0 ++ poll_event 13 ErrnoBadf 2 ++ poll_event 12 0 1 ++ poll_event 11 0 1 ++ poll_event 14 0 1).
 Proof. vm_compute. reflexivity. Qed.
+
+(* the descriptor table at work: stdout is inspected, closed, used again (EBADF), cannot be re-created by renumbering;
+   a read subscription on the still open stderr needs stdin and fails once stdin is closed; "now" timestamps read the
+   fake wall clock exactly when the descriptor is open; paths are refused (climbing out: EPERM, stdio: ENOTDIR, closed:
+   EBADF); after proc_exit every call is refused with the exit code *)
+Definition ex_fd_calls : list call :=
+  [FdFilestatGet 1; FdClose 1; FdFilestatGet 1; FdWrite 1 [[65]]; FdClose 1; FdRenumber 0 1; FdRenumber 2 5;
+   Poll [SFdRead 2 9]; FdClose 0; Poll [SFdRead 2 9]; Poll [SFdRead 0 9];
+   FdFilestatSetTimes 2 0 0 2; ClockTimeGet 0 0; FdFilestatSetTimes 1 0 0 2; ClockTimeGet 0 0;
+   PathOpen 2 [46; 46]; PathOpen 2 [97]; PathOpen 1 [97]; FdSeek 2 0 0; FdPread 2 [0%nat] 0; FdPread 2 [1%nat] 0;
+   SockAccept 2 0; ProcRaise 1; ProcExit 7; ClockTimeGet 0 0].
+
+Example default_fd_trace :
+  trace ex_stream default_ctx ex_fd_calls =
+  [(0, stdio_filestat); (0, []); (ErrnoBadf, []); (ErrnoBadf, []); (ErrnoBadf, []); (ErrnoNotsup, []); (ErrnoNotsup, []);
+   (0, le_bytes 4 1 ++ poll_event 9 0 1); (0, []); (ErrnoBadf, []); (0, le_bytes 4 1 ++ poll_event 9 ErrnoBadf 1);
+   (ErrnoNosys, []); (0, le_bytes 8 1640995200001000000); (ErrnoBadf, []); (0, le_bytes 8 1640995200002000000);
+   (ErrnoPerm, []); (ErrnoNotdir, []); (ErrnoBadf, []); (ErrnoNosys, []); (0, le_bytes 4 0); (ErrnoBadf, []);
+   (ErrnoBadf, []); (ErrnoNosys, []); (res_exit, le_bytes 4 7); (res_closed, le_bytes 4 7)] /\
+  stdio_filestat = repeat 0 16 ++ [1] ++ repeat 0 7 ++ [1] ++ repeat 0 39 /\
+  tbl_after ex_fd_calls = None /\ tbl_after (firstn 23 ex_fd_calls) = Some [2] /\
+  count reads_wall (Some [0; 1; 2]) ex_fd_calls = 3.
+Proof. vm_compute. splits; reflexivity. Qed.
